@@ -157,6 +157,7 @@ type coord struct {
 	perEx    map[string]*exStat
 	samples  int
 	harness  []string
+	slow     []string
 }
 
 type exStat struct {
@@ -194,8 +195,10 @@ type manager struct {
 	inUnit   atomic.Bool
 	last     atomic.Int64
 	curSeq   atomic.Int64
-	killedBy atomic.Int32 // 1 = watchdog
+	killedBy atomic.Int32 // 1 = watchdog, 2 = run deadline
 	wd       atomic.Int64
+	rssAtKill atomic.Int64
+	hardDL   atomic.Int64 // unix nanos after which a still-running unit is cut (not a violation)
 }
 
 func (m *manager) ensure() error {
@@ -223,6 +226,11 @@ func (m *manager) watch(stop <-chan struct{}) {
 			}
 			if time.Since(time.Unix(0, m.last.Load())) > time.Duration(m.wd.Load()) {
 				if p := m.p; p != nil && m.killedBy.CompareAndSwap(0, 1) {
+					m.rssAtKill.Store(int64(rssBytes(p.cmd.Process.Pid)))
+					_ = p.cmd.Process.Kill()
+				}
+			} else if dl := m.hardDL.Load(); dl > 0 && time.Now().UnixNano() > dl {
+				if p := m.p; p != nil && m.killedBy.CompareAndSwap(0, 2) {
 					_ = p.cmd.Process.Kill()
 				}
 			}
@@ -249,6 +257,10 @@ func classifyDeath(stderr string, ws syscall.WaitStatus) (kind, detail string) {
 func (m *manager) run(u unit) (out unitOutcome, err error) {
 	c := m.c
 	m.wd.Store(int64(c.wdFor(u.Ex)))
+	m.hardDL.Store(0)
+	if u.Deadline > 0 {
+		m.hardDL.Store(time.Unix(u.Deadline, 0).Add(10 * time.Second).UnixNano())
+	}
 	for {
 		if err := m.ensure(); err != nil {
 			return out, err
@@ -308,6 +320,12 @@ func (m *manager) run(u unit) (out unitOutcome, err error) {
 				switch g.T {
 				case "viol":
 					c.violation(u, g.Key, g.What, g.Seq)
+				case "slow":
+					c.mu.Lock()
+					if len(c.slow) < 40 {
+						c.slow = append(c.slow, fmt.Sprintf("%s %s cand %d seq %d %s: %d ms, %d bytes allocated", u.Ex, u.Seed, u.Cand, g.Seq, g.What, g.SlowMs, g.Alloc))
+					}
+					c.mu.Unlock()
 				case "class":
 					c.noteClass(u, g.Class, g.Seq)
 				case "contain":
@@ -348,11 +366,19 @@ func (m *manager) run(u unit) (out unitOutcome, err error) {
 			continue
 		}
 		seq := int(m.curSeq.Load())
+		if m.killedBy.Load() == 2 { // the run's deadline passed while a slow (not hung) call was in flight
+			out.partial = true
+			return out, nil
+		}
 		if seq < 0 {
 			return out, fmt.Errorf("worker %d died before announcing a mutant of %s %s: %s", m.id, u.Ex, u.Seed, tail(p.stderr.String(), 2000))
 		}
 		ws, _ := p.cmd.ProcessState.Sys().(syscall.WaitStatus)
-		if m.killedBy.Load() == 1 {
+		if m.killedBy.Load() == 1 && m.rssAtKill.Load() > 2<<30 {
+			// silent for the whole watchdog period while sitting above GOMEMLIMIT: a memory runaway that the
+			// garbage collector is slowing down, i.e. the same root cause as an RLIMIT_AS abort a little later
+			c.violation(u, u.Ex+":oom", fmt.Sprintf("%s made no progress for %v and holds %d MiB resident (GOMEMLIMIT 2 GiB)", u.Ex, time.Duration(m.wd.Load()), m.rssAtKill.Load()>>20), seq)
+		} else if m.killedBy.Load() == 1 {
 			c.violation(u, u.Ex+":hang", fmt.Sprintf("%s made no progress for %v", u.Ex, time.Duration(m.wd.Load())), seq)
 		} else {
 			kind, detail := classifyDeath(p.stderr.String(), ws)
@@ -371,6 +397,19 @@ func (m *manager) run(u unit) (out unitOutcome, err error) {
 		}
 		u.Resume = seq + 1
 	}
+}
+
+func rssBytes(pid int) uint64 {
+	b, err := os.ReadFile(fmt.Sprintf("/proc/%d/statm", pid))
+	if err != nil {
+		return 0
+	}
+	f := strings.Fields(string(b))
+	if len(f) < 2 {
+		return 0
+	}
+	n, _ := strconv.ParseUint(f[1], 10, 64)
+	return n * uint64(os.Getpagesize())
 }
 
 func tail(s string, n int) string {
@@ -722,6 +761,8 @@ func main() {
 		r.Cap("deadline: %d of %d containment scans run", csched, len(cunits))
 	}
 	r.Set("containment_scans", contained.Load())
+	sort.Strings(c.slow)
+	r.Set("calls_slower_than_5s", c.slow)
 	sort.Strings(c.harness)
 	for i, h := range c.harness {
 		if i < 8 {
